@@ -13,7 +13,11 @@ Case (plain literal, replayable):
      IMPLEMENTATION-SIDE ONLY (the model driver answers `(unmodelled)`, see unmodelled()): act "kbint" / "sysexit"
      (BaseException raised by enter) and pseudo steps (ops, "oncease") / (ops, "onexit") = scheduler ops the doer
      issues from its cease / exit action (re-entrant forced shutdown);
-     op ("xextend", [gid, k..]) = the doer calls extend() on ANOTHER scheduler (DoDoer gid, with gid's pool);
+     op ("xextend", [gid, k..]) / ("xremove", [gid, id..]) = the doer calls extend() / remove() on ANOTHER scheduler (DoDoer gid);
+     ops ("remove*", []) / ("extend*", []) = remove(sched.doers) / extend(sched.doers): the ARGUMENT is the scheduler's own live
+     list (modelled: `expand_star` turns them into remove of every member id / extend of nothing);
+     extras ("viaopts", [gids]): those DoDoers get their doers through do(doers=…) (opts) instead of the constructor;
+     extras ("doistctor", [1]): the Doist gets its doers in the constructor and do() is called without doers (both modelled);
      a 7th case field `extras` = (("cleanfail", [ids]), ("supervisors", [sids])): the clean action of the `cleanfail` doers
      (leaf or DoDoer) raises; the `supervisors` (DoDoer ids, 0 = the Doist) are scheduler SUBCLASSES whose recur() override
      catches an Exception raised by a child and carries on (implementation-side only).
@@ -127,7 +131,7 @@ def unmodelled(case):
         return True
     for s, _, _ in all_specs(case):
         if s[0] == "leaf":
-            if has_op(s, "xextend"):
+            if has_op(s, "xextend") or has_op(s, "xremove"):
                 return True
             # close-time ops of a doer that ends during its own enter are not modelled (and not generated)
             if s[3] != "ok" and any(o in CLOSE_OUTS for _, o in s[4]):
@@ -210,7 +214,29 @@ def enter_bexc(spec):
     return any(enter_bexc(k) for k in spec[4])
 
 
+def expand_star(case):
+    """("remove*", []) -> ("remove", [every member id of the doer's scheduler: kids then pool]);  ("extend*", []) -> ("extend", [])"""
+    if not any(s[0] == "leaf" and any(op[0].endswith("*") for ops, _ in s[4] for op in ops) for s, _, _ in all_specs(case)):
+        return case
+
+    def fix(specs, members):
+        out = []
+        for s in specs:
+            if s[0] == "leaf":
+                steps = [([("remove", list(members)) if op[0] == "remove*" else ("extend", []) if op[0] == "extend*" else op for op in ops], o)
+                         for ops, o in s[4]]
+                out.append(("leaf", s[1], s[2], s[3], steps))
+            else:
+                m = [x[1] for x in s[4]] + [x[1] for x in s[5]]
+                out.append(("group", s[1], s[2], s[3], fix(s[4], m), fix(s[5], m)))
+        return out
+    _, tock, start, limit, pool, specs = case[:6]
+    m0 = [x[1] for x in specs] + [x[1] for x in pool]
+    return ("run", tock, start, limit, fix(pool, m0), fix(specs, m0)) + tuple(case[6:])
+
+
 def request(case, fuel=FUEL):
+    case = expand_star(case)
     if unmodelled(case):
         return ("unmodelled",)
     _, tock, start, limit, pool, specs = case[:6]
@@ -253,6 +279,7 @@ class Rec:
         self.pools = {}     # scheduler id -> [objects]
         self.sched = {}     # scheduler id -> scheduler object
         self.cleanfail = set()   # ids whose clean action raises
+        self.viaopts = set()     # DoDoer ids that get their doers through do(doers=...) instead of the constructor
         self.clock = None        # SimClock of a real=True run
         self.supervisors = set() # scheduler ids whose recur() override catches the exceptions of their children
         self.rosters = {}        # scheduler id -> the very list object handed to DoDoer(doers=) / do(doers=): the caller's
@@ -323,6 +350,18 @@ class Leaf:
                 pool = self.rec.pools[self.sid]
                 self.sync_roster(self.sid, add=[pool[k] for k in op[1] if 0 <= k < len(pool)])
                 s.extend([fresh(pool[k]) for k in op[1] if 0 <= k < len(pool)])
+            elif op[0] == "extend*":          # the argument IS the scheduler's own live list
+                s.extend(s.doers)
+            elif op[0] == "remove*":
+                self.sync_roster(self.sid, drop=list(self.rec.rosters.get(self.sid) or ()))
+                s.remove(s.doers)
+            elif op[0] == "xremove":          # remove() on another scheduler (a DoDoer), outside that scheduler's own pass
+                gid = op[1][0]
+                g = self.rec.sched[gid]
+                self.sync_roster(gid, drop=[self.rec.obj[i] for i in op[1][1:] if i in self.rec.obj])
+                g.remove([fresh(self.rec.obj[i]) for i in op[1][1:] if i in self.rec.obj])
+                self.rec.ev(gid, "doers", tyme(), tuple(self.ids_of(g.doers)))
+                continue
             elif op[0] == "xextend":          # extend() on another scheduler (a DoDoer), with that scheduler's pool
                 gid = op[1][0]
                 g, pool = self.rec.sched[gid], self.rec.pools[gid]
@@ -458,7 +497,7 @@ def build_group(rec, spec):
 
     class G(doing.DoDoer):
         def enter(self, doers=None, *, temp=None):
-            if doers is None:
+            if doers is None or doers is self.doers:      # the DoDoer's own enter context (not an extend())
                 rec.ev(gid, "enter", self.tyme)
             return super().enter(doers=doers, temp=temp)
 
@@ -499,7 +538,10 @@ def build_group(rec, spec):
 
     roster = [build(rec, k, gid) for k in kids]
     rec.rosters[gid] = roster
-    g = G(doers=roster, always=always, tock=tock)
+    if gid in rec.viaopts:      # the doers arrive through the `doers` parameter of DoDoer.do (opts), not the constructor
+        g = G(always=always, tock=tock, opts=dict(doers=roster))
+    else:
+        g = G(doers=roster, always=always, tock=tock)
     rec.pools[gid] = [build(rec, k, gid) for k in pool]
     rec.sched[gid] = g
     return g
@@ -620,6 +662,7 @@ def run_program(case, mode="do"):
     rec = Rec()
     rec.cleanfail = set(extras_of(case, "cleanfail"))
     rec.supervisors = set(extras_of(case, "supervisors"))
+    rec.viaopts = set(extras_of(case, "viaopts"))
     realx = extras_of(case, "real")       # [cycle, overrun]: run with real=True under a scripted wall clock
     if realx:
         rec.clock = SimClock(realx[0], realx[1])
@@ -641,6 +684,9 @@ def run_program(case, mode="do"):
             cancel = extras_of(case, "cancel")
             if cancel:
                 raised = run_ado_cancelled(doist, doers, cancel[0], cancel[1])
+            elif mode == "do" and extras_of(case, "doistctor"):
+                doist.doers = list(doers)      # as Doist(doers=...) stores them; do() is then called without doers
+                doist.do()
             elif mode == "do":
                 doist.do(doers=doers)
             else:
@@ -770,6 +816,9 @@ class _Gen:
                                 ids = [r.choice(cand) for _ in range(r.choice([1, 1, 2, 3]))]
                             if ids:
                                 ops.append(("remove", ids))
+            if ops and not in_pool and self.profile in ("ops", "lastop") and r.random() < 0.15:
+                # the argument is the scheduler's own live list: remove(sched.doers) / extend(sched.doers)
+                ops = [((op[0] + "*", []) if op[0] in ("remove", "extend") else op) for op in ops]
             k = r.random()
             if k < self.p_fault:
                 out = ("raise" if r.random() < 0.8 else "kbint") if self.profile != "bexc" else r.choice(["raise", "kbint", "sysexit", "sysexit"])
@@ -857,6 +906,17 @@ def gen_case(rng, profile="mixed"):
     return ("run", t, rng.choice(STARTS), limit, pool, specs)
 
 
+def with_ways(rng, case):
+    """both ways of giving a scheduler its doers, as a dimension of every program"""
+    ex = list(case[6]) if len(case) > 6 else []
+    gids = [s[1] for s, _, _ in all_specs(case) if s[0] == "group"]
+    if gids and rng.random() < 0.4:
+        ex.append(("viaopts", sorted(rng.sample(gids, rng.choice([1, len(gids)])))))
+    if rng.random() < 0.2 and not any(k == "cancel" for k, _ in ex):
+        ex.append(("doistctor", [1]))
+    return case[:6] + ((tuple(ex),) if ex else ())
+
+
 def gen_superv(rng, g):
     """supervising schedulers: DoDoer / Doist subclasses whose recur() catches a child's Exception and carries on; several
     handled failures in different cycles, then a forced close (limit / fatal BaseException / error in an unsupervised part)"""
@@ -883,14 +943,20 @@ def gen_xext(rng, g):
         gid = g.nid()
         kids = [("leaf", g.nid(), rng.choice(SHAPES), "ok", [y()] * rng.choice([0, 1, 2])) for _ in range(rng.choice([0, 1, 2]))]
         gpool = [("leaf", g.nid(), rng.choice(SHAPES), "ok", [y(rng.choice([0.0, t, 2 * t]))] * rng.choice([1, 3, 5])) for _ in range(rng.choice([1, 2]))]
-        specs.append(("group", gid, rng.choice([0.0, 0.0, t]), True, kids, gpool))
-        groups.append((gid, len(gpool)))
+        specs.append(("group", gid, rng.choice([0.0, 0.0, t]), rng.random() < 0.7, kids + ([("leaf", g.nid(), "doify", "ok", [y()] * 9)] if rng.random() < 0.5 else []), gpool))
+        groups.append((gid, len(gpool), [k[1] for k in specs[-1][4]], specs[-1][3]))
     if rng.random() < 0.4:
         specs.insert(0, ("leaf", g.nid(), "doify", "ok", [y()] * 6))
     for _ in range(rng.choice([1, 1, 2])):
-        gid, np_ = rng.choice(groups)
+        gid, np_, kidids, galways = rng.choice(groups)
         pre = rng.choice([1, 2, 3, 4])
-        op = ("xextend", [gid] + [rng.randrange(np_) for _ in range(rng.choice([1, 2]))])
+        if not galways and not kidids:
+            continue
+        if kidids and (not galways or rng.random() < 0.5):
+            # remove() on the sibling DoDoer from outside its pass: completed doers (nothing to close) and / or live ones
+            op = ("xremove", [gid] + rng.sample(kidids, rng.choice([1, min(2, len(kidids))])))
+        else:
+            op = ("xextend", [gid] + [rng.randrange(np_) for _ in range(rng.choice([1, 2]))])
         tail = rng.choice([[([op], "raise")], [([op], ("yield", 0.0)), ([], "raise")], [([op], ("yield", 0.0))] + [y()] * 4, [([op], ("ret", True))]])
         specs.append(("leaf", g.nid(), rng.choice([s for s in SHAPES if s != "plain"]), "ok", [y()] * pre + tail))
     return ("run", t, rng.choice(STARTS), rng.choice([2 * t, 3 * t, 4 * t, 6 * t, 2.5 * t]), [], specs)
@@ -951,7 +1017,7 @@ def shrink_case(case):
         for c in shrink_case(case[:6]):
             yield c + (ex,)
         for k, v in ex:
-            if k in ("cancel", "real"):      # (loop step, kind) / (cycle, overrun): not lists of ids
+            if k in ("cancel", "real", "doistctor"):      # (loop step, kind) / (cycle, overrun): not lists of ids
                 continue
             for n in range(len(v)):
                 yield case[:6] + (((k, list(v[:n]) + list(v[n + 1:])),),) if len(v) > 1 else case[:6]
@@ -994,6 +1060,8 @@ def case_valid(case):
                 for op in ops:
                     # extend() on another scheduler: only an `always` DoDoer that is entered with the run (it stays alive)
                     if op[0] == "xextend" and not (op[1] and op[1][0] in groups and groups[op[1][0]][0][3] and not groups[op[1][0]][1]):
+                        return False
+                    if op[0] == "xremove" and not (op[1] and op[1][0] in groups and not groups[op[1][0]][1]):
                         return False
     return True
 
@@ -1081,7 +1149,7 @@ def has_out(spec, what):
 
 def has_op(spec, what):
     if spec[0] == "leaf":
-        return any(op[0] == what for ops, _ in spec[4] for op in ops)
+        return any(op[0].rstrip("*") == what for ops, _ in spec[4] for op in ops)
     return any(has_op(k, what) for k in spec[4]) or any(has_op(k, what) for k in spec[5])
 
 
@@ -1099,14 +1167,17 @@ class SchedCheck(core.Check):
                    "py3.12: generator.close() returns None; Doer/DoDoer return self.done on close, so 3.13 semantics assign the same value",
                    "three model generations, tied by Lean theorems (model2_is_model_on_old_scripts, model3_is_model2_without_close_ops): Model (plain scripts), Model2 (exception kinds Exception/KeyboardInterrupt/SystemExit at steps and at enters; clean actions that raise), Model3 (scheduler ops issued from cease/exit actions, scheduler state threaded through the close loop, close fuel 400); the driver answers each case with the oldest model that has its script data",
                    "leaves whose clean action raises are function shaped in the generators (a Doer instance has assigned self.done before clean() runs, a generator function has not; the model follows the functions)",
-                   "IMPLEMENTATION-SIDE ONLY (driver answers (unmodelled); oracle on the real run; ~5% of the C01/C02 cases): extend() called on ANOTHER scheduler (an idle always-DoDoer extended by a sibling), supervising scheduler subclasses whose recur() override catches a child's exception (stale pass marker), exceptions raised by ops inside a close action, close-time ops of a doer that ends during its own enter — no Lean theorem covers these"]
+                   "IMPLEMENTATION-SIDE ONLY (driver answers (unmodelled); oracle on the real run; ~5-10% of the C01/C02 cases): ado() stopped from outside by task cancellation / coroutine close(), extend()/remove() called on ANOTHER scheduler (an idle always-DoDoer extended by a sibling), supervising scheduler subclasses whose recur() override catches a child's exception (stale pass marker), exceptions raised by ops inside a close action, close-time ops of a doer that ends during its own enter — no Lean theorem covers these"]
 
     def corpus(self):
         return list(CORPUS)
 
+    ways = False     # vary HOW schedulers get their doers (constructor vs do(doers=...)/opts); only checks that accept 7-field cases
+
     def generate(self, rng, n, tier):
         for _ in range(n):
-            yield gen_case(rng, rng.choice(self.profiles))
+            c = gen_case(rng, rng.choice(self.profiles))
+            yield with_ways(rng, c) if self.ways else c
         if tier == "quick":      # a seeded slice of the exhaustive single-fault scope (all of it runs in thorough)
             ex = exhaustive_scope()
             for c in rng.sample(ex, min(len(ex), max(20, n // 4))):
